@@ -125,12 +125,12 @@ fn feed_fifo(path: std::path::PathBuf, data: Vec<u8>, chunk: usize, stop: std::s
     write_chunked(&mut file, &data, chunk);
 }
 
-pub fn run(bin: &Path, args: &[String], stdin: Option<&[u8]>, cwd: Option<&Path>, budget: Option<(u64, u64)>, watchdog: Duration) -> RunOut {
+pub fn run<A: AsRef<std::ffi::OsStr>>(bin: &Path, args: &[A], stdin: Option<&[u8]>, cwd: Option<&Path>, budget: Option<(u64, u64)>, watchdog: Duration) -> RunOut {
     run_fed(bin, args, stdin, &Feed::default(), cwd, budget, watchdog)
 }
 
 /// Run a binary with a budget (RSBDD_VERIF_BUDGET) and a generous watchdog.
-pub fn run_fed(bin: &Path, args: &[String], stdin: Option<&[u8]>, feed: &Feed, cwd: Option<&Path>, budget: Option<(u64, u64)>, watchdog: Duration) -> RunOut {
+pub fn run_fed<A: AsRef<std::ffi::OsStr>>(bin: &Path, args: &[A], stdin: Option<&[u8]>, feed: &Feed, cwd: Option<&Path>, budget: Option<(u64, u64)>, watchdog: Duration) -> RunOut {
     let stop = std::sync::Arc::new(std::sync::atomic::AtomicBool::new(false));
     for (p, _, _) in &feed.fifos {
         if !make_fifo(p) {
